@@ -1318,11 +1318,12 @@ class KernelAnalysis:
                 and isinstance(value.slice, ast.Constant):
             self._decl(name, 'out')
             return
-        if isinstance(value, ast.Name) and value.id in self.gvars:
-            g = self.gvars[value.id]
+        if isinstance(value, (ast.Name, ast.Attribute)) and self._arr_name(value) in self.gvars:
+            src = self._arr_name(value)
+            g = self.gvars[src]
             self.gvars[name] = GVar(name, g.off, g.length, g.role, g.scaled, g.zero_init)
             self.alias_of = getattr(self, 'alias_of', {})
-            self.alias_of[name] = value.id
+            self.alias_of[name] = src
             return
         # Y_r = Y.reshape(...) / numpy.reshape(Y, ...): numpy returns a view only for suitably contiguous data
         rb = None
